@@ -54,8 +54,14 @@ Definition set_world (d : drv) (w : world) (poisoned : bool) : drv :=
   mkDrv (dr_story d) (Some w) poisoned (dr_seed d) (dr_fuel d).
 
 (* story.load_state(json) on the live world *)
+(* Story::load_state: the async guard (regenerated switch), then StoryState::load_json *)
+Definition story_load_state (w : world) (j : json) : out unit * world :=
+  if sw_guard_load sw && w_async w
+  then (OErr InvalidState (T "Can't load a saved state. Story is in the middle of a continue_async()."), w)
+  else load_state panics ssw w j.
+
 Definition do_load (d : drv2) (w : world) (j : json) : text * drv2 :=
-  match load_state panics ssw w j with
+  match story_load_state w j with
   | (OOk _, w') => (T "ok", mkDrv2 (set_world (d2_base d) w' false) (d2_saves d))
   | (OErr k _, w') => (show_err k, mkDrv2 (set_world (d2_base d) w' false) (d2_saves d))
   | (OPanic _, w') => (T "panic", mkDrv2 (set_world (d2_base d) w' true) (d2_saves d))
@@ -188,4 +194,17 @@ Definition wf_trace (sw : switches) (orc : oracles) (panics : ssite -> bool) (ss
       let '(_, d2) := summary d1 in
       join_with [32] (wf_trace_loop sw orc panics ssw script (mkDrv2 d2 []) [])
   | _ => T "noload"
+  end.
+
+(* the world a script leaves (None: no story / poisoned) *)
+Definition world_after (sw : switches) (orc : oracles) (panics : ssite -> bool) (ssw : save_switches)
+           (j : json) (seed : Z) (fuel : N) (script : list hostop2) : option world :=
+  match load_story j with
+  | Ok st =>
+      let d0 := mkDrv (Some st) None false seed fuel in
+      let '(_, d1) := new_story sw orc d0 in
+      let '(_, d2) := summary d1 in
+      let '(_, d3) := run_script2 sw orc panics ssw script (mkDrv2 d2 []) [] in
+      if dr_poisoned (d2_base d3) then None else dr_world (d2_base d3)
+  | _ => None
   end.
